@@ -105,6 +105,14 @@ class Ctx:
             self._ga[cfg] = GateAnalysis(self.eng(cfg))
         return self._ga[cfg]
 
+    def gates_modular(self, cfg='prod-all'):
+        """gate analysis over the dependence engine that labels how each dependence treats residue classes (dep.label_of)"""
+        if not hasattr(self, '_gam'):
+            self._gam = {}
+        if cfg not in self._gam:
+            self._gam[cfg] = GateAnalysis(Engine(self.prog(cfg), modular=True))
+        return self._gam[cfg]
+
 
 class Ob:
     """one obligation (rule instance) and its outcome."""
